@@ -17,7 +17,7 @@ from ..core import AnalysisError, FuncInfo, Repo, dotted
 from .. import au, pat
 from .common import *  # noqa
 from .common import key_of
-from . import c01
+from . import c01, shared
 
 
 def check(repo: Repo, R) -> None:
@@ -177,5 +177,11 @@ def check(repo: Repo, R) -> None:
             why="bundle-valued ports are not exposed, or ports are wired to differently named ports")
     # the array partition this topology relies on
     c01.array_partition(repo, R, "C19.5-array-element-k-gets-bit-k")
+    # the generators build a fresh module on every call: no table of earlier results lives in the file
+    st_ = shared.module_level_state(repo.file(F_GENERATORS).tree)
+    if not shared.module_level_state(ast.parse("_seen = dict()\ndef f(m):\n    _seen[m.name] = m\n")):
+        raise AnalysisError("self-check failed: the module-level-state rule does not see its positive sample")
+    R.check(not st_, "C19.4-wrapper", f"{F_GENERATORS}::module-state", F_GENERATORS, f"{F_GENERATORS} keeps no module-level table that its functions write to" if not st_ else f"module-level state written by the generators: {st_}",
+            why="a second wrap of another cell with the same name (or of the same cell after an edit) returns the first wrapper: the wrapped ports are those of another module")
     R.floor("C19.1-series-topology", 6)
     R.floor("C19.5-array-element-k-gets-bit-k", 3)
